@@ -128,3 +128,35 @@ Definition disconnect_local_client (s : server) (id : N) (client : conn) : serve
       let r := match disconnect_reason c with Some r => r | None => RDisconnectedByClient end in
       (with_events (with_conns s (sm_remove id (s_conns s))) (s_events s ++ [EvDisconnected id r]), client')
   end.
+
+(* RenetServer::process_local_client: the server's packets for id go to the client, then the client's packets
+   go to the server; the `?` of the library stops at the first ClientNotFound (false) *)
+Fixpoint conn_process_all (c : conn) (pk : list (list N)) : pres conn :=
+  match pk with
+  | [] => Ok c
+  | p :: t => do c' <- process_packet c p; conn_process_all c' t
+  end.
+
+Fixpoint srv_process_all (s : server) (id : N) (pk : list (list N)) : pres (server * bool) :=
+  match pk with
+  | [] => Ok (s, true)
+  | p :: t => do r <- process_packet_from s p id;
+              let (s', ok) := r in if ok then srv_process_all s' id t else Ok (s', false)
+  end.
+
+Definition process_local_client (s : server) (id : N) (client : conn) : pres (server * conn * bool) :=
+  do r <- srv_get_packets_to_send s id;
+  let (s1, opk) := r in
+  match opk with
+  | None => Ok (s1, client, false)
+  | Some pk =>
+      do c1 <- conn_process_all client pk;
+      do r2 <- get_packets_to_send c1;
+      let (c2, pk2) := r2 in
+      do r3 <- srv_process_all s1 id pk2;
+      let (s2, ok) := r3 in Ok (s2, c2, ok)
+  end.
+
+Definition connected_clients (s : server) : N := len (clients_id s).
+Definition has_connections (s : server) : bool := match s_conns s with [] => false | _ => true end.
+
